@@ -673,6 +673,11 @@ func init() {
 					c10LargeOne(r, c10LargeCases(tier)[i])
 					r.NontrivialByConstruction(r.Evals - before)
 				}},
+				{Name: "same-id-elements", N: len(c10SameIDCases()), Note: "all sequences of length 2..4 over four HumanNames (two equal copies with one element id, one with the same id and other content, one with the same content and another id): the whole battery of the large collections (where / exists / all, subsetting, distinct, isDistinct, exclude, intersect)", Run: func(i int, r *core.Rec) {
+					before := r.Evals
+					c10LargeOne(r, c10SameIDCases()[i])
+					r.NontrivialByConstruction(r.Evals - before)
+				}},
 				{Name: "set-functions-fhir-primitives", N: c10Count(len(c10FHIRAlphabet()), 2) * c10Count(len(c10FHIRAlphabet()), 2), Note: "the same over FHIR primitive elements that are equal as values but not as messages (a string with and without an element id, decimals 1.0 / 1.00) mixed with System values, collections of length <=2", Run: func(i int, r *core.Rec) {
 					al := c10FHIRAlphabet()
 					n := c10Count(len(al), 2)
